@@ -270,14 +270,16 @@ def ofetchRef (st : List ((String × Int) × CState)) (req : String) : Option St
     | [n, ps] => do let ps ← (splitD ps ".").mapM (·.toInt?); pure (n, ps)
     | _ => none
   let ts ← if req == "nil" || req == "empty" then some allTs else parsed
-  let ts := sortBy (fun a b => a.1 < b.1) ts
+  let ts := sortBy (fun a b => a.1 < b.1) (ts.filter (·.1 != "*"))
+  let groupErr : Option Int := match st.find? (fun e => e.1 == ("*", 0)) with | some (_, .err g) => some g | _ => none
   let body := ts.map fun (n, ps) =>
     s!"{n}:" ++ ",".intercalate (ps.map fun p =>
+      if let some g := groupErr then s!"{p}/-1//{g}" else
       match st.find? (fun e => e.1 == (n, p)) with
       | some (_, .err e) => s!"{p}/-1//{e}"
       | some (_, .val o m) => s!"{p}/{o}/{m}/0"
       | none => s!"{p}/-1//0")
-  pure s!"0;{"|".intercalate body}"
+  pure s!"{groupErr.getD 0};{"|".intercalate body}"
 
 def knownTopics : List String := ["a", "b", "c", "d", "e", "ab"]
 
@@ -302,11 +304,39 @@ def ocommitRef (st : List ((String × Int) × CState)) (req : String) : Option S
     else (st.filter fun e => e.1 != (n, p)) ++ [((n, p), CState.val o m)]) st) st
   pure s!"{resp} {showCState st'}"
 
+/-- ConsumerOffsets reference: a failure of the whole OffsetFetch (group-level error) is reported as an error; a failure
+on one partition is reported (the call returns an error) and that partition is NOT presented as "nothing committed";
+every other partition carries the coordinator's committed offset (−1 when nothing is committed) -/
 def coffsetsRef (st : List ((String × Int) × CState)) (t : String) (np : Nat) : String :=
-  dash (",".intercalate ((List.range np).map fun p =>
+  match st.find? (fun e => e.1 == ("*", 0)) with
+  | some (_, .err g) => s!"err {g} -"
+  | _ =>
+    let parts := (List.range np).map fun p => (p, st.find? (fun e => e.1 == (t, Int.ofNat p)))
+    let good := parts.filterMap fun (p, e) => match e with
+      | some (_, .val o _) => some s!"{p}={o}"
+      | some (_, .err _) => none
+      | none => some s!"{p}=-1"
+    let firstErr := parts.findSome? fun (_, e) => match e with | some (_, .err c) => some c | _ => none
+    match firstErr with
+    | some c => s!"err {c} {dash (",".intercalate good)}"
+    | none => dash (",".intercalate good)
+
+/-- ConsumerOffsets through the model: the coordinator's per-partition answers for the topic's partitions, mapped by
+`Mappings.consumerOffsets` -/
+def coffsetsModel (st : List ((String × Int) × CState)) (t : String) (np : Nat) : String :=
+  let groupErr : Int := match st.find? (fun e => e.1 == ("*", 0)) with | some (_, .err g) => g | _ => 0
+  let fetched : List KV.Mappings.UOFPart := (List.range np).map fun p =>
     match st.find? (fun e => e.1 == (t, Int.ofNat p)) with
-    | some (_, .val o _) => s!"{p}={o}"
-    | _ => s!"{p}=-1"))
+    | some (_, .val o m) => ⟨Int.ofNat p, o, m, 0⟩
+    | some (_, .err c) => ⟨Int.ofNat p, -1, "", c⟩
+    | none => ⟨Int.ofNat p, -1, "", 0⟩
+  match KV.Mappings.consumerOffsets groupErr fetched with
+  | .error g => s!"err {g} -"
+  | .ok (m, e) =>
+    let body := dash (",".intercalate ((sortBy (fun a b => decide (a.1 < b.1)) m).map fun (p, o) => s!"{p}={o}"))
+    match e with
+    | some (_, code) => s!"err {code} {body}"
+    | none => body
 
 /-- metadata reference: the op's cluster description is already in the canonical output format -/
 def metaRef (filter : String) (cluster : String) : Option String :=
@@ -495,7 +525,7 @@ def step (line : String) : String :=
       | none => "bad-op"
     | ["coffsets", st, t, np] =>
       match parseCState st, np.toNat? with
-      | some st, some np => let want := coffsetsRef st t np; answer want (impl == want)
+      | some st, some np => answer (coffsetsModel st t np) (impl == coffsetsRef st t np)
       | _, _ => "bad-op"
     | ["meta", f, c] =>
       match metaRef f c with
